@@ -784,6 +784,29 @@ func c20(r *Report, s *Sem) {
 		})
 	}
 
+	// ---- R7
+	R7 := r.Rule("R7", "an unmatched envelope is dropped, not left in its stream: every receiving arm of the dispatch select listens on a channel that is never nil (an arm disabled while no handler is registered parks the receiver on the first such envelope and ends the session's input)", 4)
+	if a.listenFn != nil {
+		eachInstr(a.listenFn, func(in ssa.Instruction) {
+			sel, ok := in.(*ssa.Select)
+			if !ok || len(sel.States) < 3 {
+				return
+			}
+			for i, st := range sel.States {
+				if st.Dir != types.RecvOnly {
+					continue
+				}
+				bad := ""
+				for _, l := range leaves(st.Chan) {
+					if isNilConst(stripConv(l)) {
+						bad = "the channel may be nil"
+					}
+				}
+				r.Check(R7, fmt.Sprintf("func %s / dispatch select arm #%d (%s) always armed", fnName(a.listenFn), i, types.TypeString(st.Chan.Type(), func(*types.Package) string { return "" })), p.pos(st.Pos), bad == "", bad)
+			}
+		})
+	}
+
 	// ---- R5
 	same := func(l []string) bool {
 		for _, x := range l {
